@@ -147,6 +147,8 @@ type Enc struct {
 	seqAbstract bool // relational mode: sequences are abstract ids, no content quantifiers
 	usesSeq    bool
 	splitOnCells bool // also case-split on branches that merge different values of local variables
+	defBody      map[string]string // macro name -> body (for recognising equal branch conditions)
+	splitSeen    map[string]bool
 	opaqueNames map[string]bool
 	factsDone  map[string]bool
 	lastFrame  *frame
@@ -214,6 +216,10 @@ func (e *Enc) def(hint string, t T) T {
 	}
 	n := e.freshName(hint)
 	e.emit(fmt.Sprintf("(define-fun %s () %s %s)", n, t.Sort, t.S))
+	if e.defBody == nil {
+		e.defBody = map[string]string{}
+	}
+	e.defBody[n] = t.S
 	if bs, ok := e.concatBytes[t.S]; ok {
 		e.concatBytes[n] = bs
 	}
@@ -798,7 +804,30 @@ func (e *Enc) runBody(fn *ssa.Function, args []Val, bind []Val, top bool, con *C
 			}
 		}
 	}
-	return e.mergeReturns(f)
+	reach, rets := e.mergeReturns(f)
+	if !top && con != nil && len(con.Ensures) > 0 && e.dry == 0 && reach.S != "false" && fn.Syntax() != nil {
+		// a closure expanded in place keeps its own postconditions: they are
+		// obligations at its return (over its results, the captured variables
+		// and, with old(), the state at its entry)
+		env := e.cellEnv(f, fn.Syntax().End()-1, e.cur.clone())
+		names := e.resultNames(con, fn.Signature, fn)
+		for i, n := range names {
+			if i < len(rets) {
+				env.names[n] = TV{V: rets[i], Ty: fn.Signature.Results().At(i).Type()}
+			}
+		}
+		for _, c := range con.Ensures {
+			n0 := len(e.obls)
+			label := strings.TrimSuffix(c.Label, "!")
+			g := e.evalBool(env, c)
+			e.oblige("post", fmt.Sprintf("%s/%s.post.%s", e.frames[0].name, f.name, label), g, fn.Pos())
+			if len(e.obls) > n0 {
+				e.obls[n0].Env = env
+				e.obls[n0].ClauseText = c.Text
+			}
+		}
+	}
+	return reach, rets
 }
 
 func (e *Enc) mergeReturns(f *frame) (T, []Val) {
@@ -912,11 +941,6 @@ func (e *Enc) mergeStates(ins []edgeIn, hint string) (T, *State) {
 		}
 		if !all {
 			v = e.nameVal(v, "m_"+k.Comment)
-			if e.splitOnCells {
-				for i := 0; i < len(ins)-1; i++ {
-					e.noteSplit(ins[i].cond)
-				}
-			}
 		}
 		out.cells[k] = v
 	}
@@ -1193,6 +1217,18 @@ func (e *Enc) instr(f *frame, b *ssa.BasicBlock, in ssa.Instruction) {
 	case *ssa.If:
 		c := e.scalar(e.val(x.Cond), SBool)
 		c = e.def("c", c)
+		if e.splitOnCells && e.dry == 0 {
+			// branch conditions are case-split candidates; a condition tested
+			// twice (same expression after expanding macros) counts once
+			if e.splitSeen == nil {
+				e.splitSeen = map[string]bool{}
+			}
+			key := e.expandDefs(c.S, 6)
+			if !e.splitSeen[key] {
+				e.splitSeen[key] = true
+				e.noteSplit(c)
+			}
+		}
 		e.addEdge(f, b, b.Succs[0], e.def("e", and(e.reach, c)))
 		e.addEdge(f, b, b.Succs[1], e.def("e", and(e.reach, not(c))))
 	case *ssa.Jump:
@@ -1643,4 +1679,45 @@ func (e *Enc) runDefers(f *frame) {
 
 func (e *Enc) hookChanOp(f *frame, kind string, ch ssa.Value, pos token.Pos) {
 	e.abstract("chan-" + kind)
+}
+
+// expandDefs replaces macro names by their bodies (to the given depth); used
+// only to compare branch conditions, never emitted.
+func (e *Enc) expandDefs(s string, depth int) string {
+	if depth == 0 || len(s) > 4000 {
+		return s
+	}
+	toks := tokens(s)
+	changed := false
+	for _, t := range toks {
+		if _, ok := e.defBody[t]; ok {
+			changed = true
+			break
+		}
+	}
+	if !changed {
+		return s
+	}
+	var b strings.Builder
+	i := 0
+	for i < len(s) {
+		c := s[i]
+		if c == '(' || c == ')' || c == ' ' {
+			b.WriteByte(c)
+			i++
+			continue
+		}
+		j := i
+		for j < len(s) && s[j] != '(' && s[j] != ')' && s[j] != ' ' {
+			j++
+		}
+		t := s[i:j]
+		if body, ok := e.defBody[t]; ok {
+			b.WriteString(e.expandDefs(body, depth-1))
+		} else {
+			b.WriteString(t)
+		}
+		i = j
+	}
+	return b.String()
 }
